@@ -208,15 +208,22 @@ def main(argv=None):
     for scn, r in zip(scns, results):
         st = r.get("status")
         if st == "violation":
-            v0 = (r.get("violations") or [{}])[0]
-            k = match_known(known, scn["sid"], v0)
-            if k is not None:
-                known_lines.append("KNOWN-FINDING: property=%s %s [scenario %s]" % (pid, k.get("what", ""), scn["sid"]))
-                r["known_finding"] = k.get("id")
+            vs = r.get("violations") or [{}]
+            unmatched = []
+            for v in vs:
+                k = match_known(known, scn["sid"], v)
+                if k is not None:
+                    known_lines.append("KNOWN-FINDING: property=%s %s [scenario %s]" % (pid, k.get("what", ""), scn["sid"]))
+                    r.setdefault("known_findings", []).append(k.get("id"))
+                else:
+                    unmatched.append(v)
+            if not unmatched:
+                r["status"] = "ok"
                 continue
-            rpath = os.path.join(HERE, "replays", "%s_%s.json" % (pid, re.sub(r"[^A-Za-z0-9_.-]", "_", scn["sid"])))
+            v0 = unmatched[0]
+            rpath = os.path.join(HERE, "replays", "%s_%s.json" % (pid, re.sub(r"[^A-Za-z0-9_.-]", "_", scn["sid"])[:150]))
             json.dump({"property": pid, "sid": scn["sid"], "fn": scn["fn"], "params": scn.get("params", {}), "seed": seed,
-                       "overrides": r.get("overrides"), "witness": r.get("witness"), "violations": r.get("violations"),
+                       "overrides": r.get("overrides"), "witness": r.get("witness"), "violations": unmatched,
                        "how_to_replay": "./check %s --replay %s" % (pid, rpath)}, open(rpath, "w"), indent=1, default=str)
             viol_lines.append((rpath, scn["sid"], v0))
         elif st == "inconclusive":
@@ -269,8 +276,8 @@ def write_evidence(pid, tier, seed, mod, scns, results, wall, nviol, known_lines
         hashes.update(hs)
         for k, v in (r.get("fun_atoms") or {}).items():
             fun_atoms[k] = fun_atoms.get(k, 0) + v
-    repo_frames = sorted(f for f in frames if f.startswith("gpytorch/"))
-    lo_frames = sorted(f for f in frames if f.startswith("linear_operator/"))
+    repo_frames = sorted(f for f in frames if f.startswith("gpytorch/") or (f.startswith("pysym:") and "/gpytorch/" in f))
+    lo_frames = sorted(f for f in frames if f.startswith("linear_operator/") or (f.startswith("pysym:") and "/linear_operator/" in f))
     samples = []
     for scn, r in list(zip(scns, results))[:: max(1, len(scns) // 6)][:6]:
         samples.append({"scenario": scn["sid"], "params": scn.get("params", {}), "status": r.get("status"),
@@ -296,7 +303,7 @@ def write_evidence(pid, tier, seed, mod, scns, results, wall, nviol, known_lines
         "scenarios_ok": sum(1 for r in results if r.get("status") == "ok"),
         "scenarios_inconclusive": [(s["sid"], r.get("reason")) for s, r in zip(scns, results) if r.get("status") == "inconclusive"][:20],
         "scenarios_error": [(s["sid"], r.get("reason")) for s, r in zip(scns, results) if r.get("status") not in ("ok", "violation", "inconclusive")][:20],
-        "bounds": meta.get("bounds", {}).get(tier, meta.get("bounds", "")),
+        "bounds": (meta.get("bounds", {}).get(tier, "") if isinstance(meta.get("bounds"), dict) else meta.get("bounds", "")),
         "outside_claim": meta.get("outside", []),
         "functions_encoded": {"gpytorch (from /repo working tree)": repo_frames[:400],
                               "linear_operator": lo_frames[:200],
@@ -312,8 +319,8 @@ def write_evidence(pid, tier, seed, mod, scns, results, wall, nviol, known_lines
         "repo_head": _repo_head(),
     }
     if meta.get("level") == "model_checking":
-        cov["states"] = max(1, int(meta.get("states_fn", lambda rs: len(hashes))(results)))
-        cov["transitions"] = max(1, sum(r.get("transitions", 0) or 0 for r in results) or len(scns))
+        cov["states"] = max(1, sum(int((r.get("extra") or {}).get("states", (r.get("extra") or {}).get("paths", 0)) or 0) for r in results) or len(hashes))
+        cov["transitions"] = max(1, sum(int((r.get("extra") or {}).get("transitions", 0) or 0) for r in results) or sum(r.get("obligations", 0) for r in results))
         cov["traces_validated_against_impl"] = sum(1 for r in results if r.get("status") == "ok")
     ev = {"property_id": pid, "tier": tier, "seed": seed, "level": meta.get("level", "other"), "coverage": cov,
           "assumptions": meta.get("assumptions", []), "wall_s": round(wall, 2), "violations": nviol}
